@@ -62,7 +62,7 @@ def run(ctx):
         exprs.append("(Z.of_nat (clampZ (box_lo %s %s %s) %d%%nat), Z.of_nat (clampZ (box_hi %s %s %s) %d%%nat), substeps %s)" % (c0, w, pdo, c["F"], c0, w, pdo, c["F"], D))
         idx.append((ci, "box"))
         if c["ptype"] == "box":
-            fr = "{| T := %d%%nat; F := %d%%nat; df := %s; dt := %s; fmin := %s; data := mk %d%%nat %d%%nat (fun _ _ => 0) |}" % (
+            fr = "{| T := %d%%nat; F := %d%%nat; df := %s; dt := %s; fmin := %s; t0 := 0; data := mk %d%%nat %d%%nat (fun _ _ => 0) |}" % (
                 c["T"], c["F"], gq(c["df"]), gq(c["dt"]), gq(fmin), c["T"], c["F"])
             exprs.append("run1 (add_constant_signal %s %s %s %s %s (box_profile %s) %s)" % (fr, gq(c["f_start"]), gq(c["drift"]), gq(c["level"]), gq(c["width"]), gq(c["width"]), C.gbool(c["smear"])))
             idx.append((ci, "array"))
